@@ -1,6 +1,7 @@
 //! L1/L2 harnesses on session/state.rs: packet identifiers (C07), keep-alive arithmetic (C10),
 //! packet-size gate (C14), reset (C05).
 use super::*;
+use crate::mqtt_client::outbound::verif_outbound::{any_state, peek_release, peek_retained, set_release_state, set_retained_state};
 use crate::ReasonCode;
 use core::num::NonZeroU16;
 use embassy_time::{Duration, Instant};
@@ -33,25 +34,35 @@ fn fresh_id_body(n_ret: usize, n_rel: usize) {
     kani::assume(c != 0);
     data.packet_id = NonZeroU16::new(c).unwrap();
     let ids: [u16; 5] = kani::any();
+    // every in-flight entry in an arbitrary send state: an exchange whose PUBREL (or PUBLISH) is
+    // already on the wire still owns its identifier until the final acknowledgement
     let mut i = 0;
     while i < n_ret {
         kani::assume(ids[i] != 0);
         data.outbound.retain_packet(ids[i], 2 * i, 2).unwrap();
+        set_retained_state(&mut data.outbound, i, any_state(2));
         i += 1;
     }
     let mut j = 0;
     while j < n_rel {
         kani::assume(ids[n_ret + j] != 0);
         data.outbound.queue_release(ids[n_ret + j], ReasonCode::Success).unwrap();
+        set_release_state(&mut data.outbound, j, any_state(4));
         j += 1;
     }
     let id = data.next_packet_id();
     assert!(id != 0, "C07/nonzero: allocated id is 0");
-    assert!(!data.outbound.has_retained(id), "C07/fresh: allocated id equals a retained (unacknowledged) id");
-    assert!(
-        !data.outbound.has_pending_release(id),
-        "C07/fresh: allocated id equals an id awaiting PUBCOMP"
-    );
+    // the oracle reads the lists directly (not through has_retained / has_pending_release)
+    let mut i = 0;
+    while i < n_ret {
+        assert!(peek_retained(&data.outbound, i).map(|e| e.0) == Some(ids[i]) && id != ids[i], "C07/fresh: allocated id equals a retained (unacknowledged) id");
+        i += 1;
+    }
+    let mut j = 0;
+    while j < n_rel {
+        assert!(peek_release(&data.outbound, j) == Some(ids[n_ret + j]) && id != ids[n_ret + j], "C07/fresh: allocated id equals an id awaiting PUBCOMP (whatever the send state of its PUBREL)");
+        j += 1;
+    }
     kani::cover!(id != c, "allocation skipped an id in use");
     kani::cover!(id == c, "allocation used the counter value");
 }
